@@ -82,6 +82,7 @@ def default_plan(tier, scale=1.0):
                 ("G2xC1", nets.STARTS_Q[:2], nets.SIGMA_Q, 2, "c2"),
                 ("fork3xC2", fork_histories(nets.STARTS_Q[:2], nets.SIGMA_C + ["cpu_neg"], mids, nets.SIGMA_C + ["cpu_neg"]), "c2"),
                 ("cpualias4xC2", cpualias, "c2"),
+                ("G1xCZ", nets.STARTS_Q[:2], nets.SIGMA_Q, 1, "cZ"),
                 ("regblockdepxCP", reg_blockdep, "cP"), ("regtilepadxC8", reg_tilepad, "c8"), ("regupcascadexC8", reg_upcascade, "c8"), ("regifacexC2", reg_iface, "c2"),
                 ("perfcascade3xCP", histories(big, perf_ops, 3), "cP")]
     return [("G1xC24", nets.STARTS_T, nets.SIGMA_T, 1, "c24"),
@@ -90,7 +91,7 @@ def default_plan(tier, scale=1.0):
             ("G2xC8", nets.STARTS_Q, nets.SIGMA_Q, 2, "c8"),
             ("chain3xC4", nets.STARTS_Q[:2], nets.SIGMA_C, 3, "c4"),
             ("perfcascade3xCP", histories(big + [((1, 48, 48, 8), "int8")], nets.SIGMA_C, 3), "cP"),
-            ("cpualias4xC8", cpualias, "c8"),
+            ("cpualias4xC8", cpualias, "c8"), ("G1xCZ", nets.STARTS_T, nets.SIGMA_T, 1, "cZ"),
             ("fork3xC8", fork_histories(nets.STARTS_Q, nets.SIGMA_C + ["cpu_neg", "concat", "split"], mids, nets.SIGMA_C + ["cpu_neg", "concat", "reshape"]), "c8")]
 
 
